@@ -85,13 +85,22 @@ func c18Variants(id string) []*Program {
 		b.Inj("Init", top, false, false, nil, refs(nd, ns, ov, nt)...)
 		vs = append(vs, b.P)
 	}
+	{ // accepted, and nothing to generate: the package has no injector (any more)
+		b := NewPB(id, "app")
+		t := b.Carrier(0, "Short")
+		b.Func(0, "NewShort", t, false, false)
+		vs = append(vs, b.P)
+	}
 	return vs
 }
 
 // c18Accepted lists the variants wire accepts.
-var c18Accepted = map[int]bool{0: true, 1: true, 4: true, 5: true, 6: true}
+var c18Accepted = map[int]bool{0: true, 1: true, 4: true, 5: true, 6: true, 7: true}
 
-const c18NVariants = 7
+// c18NoOutput: accepted variants for which a fresh checkout has no generated file.
+var c18NoOutput = map[int]bool{7: true}
+
+const c18NVariants = 8
 
 type histStep struct {
 	Op  string // switch gen diff check delete damage
@@ -135,7 +144,7 @@ func genHistory(e *Env, i, length int) []histStep {
 	}
 	// every history ends with a successful regeneration and a diff
 	// (some end with a regeneration of one accepted variant right after another's)
-	tails := [][]int{{0}, {1}, {4}, {5, 6}, {6, 5}, {1, 4}, {4, 1}, {0, 6}}
+	tails := [][]int{{0}, {1}, {4}, {5, 6}, {6, 5}, {1, 4}, {4, 1}, {0, 6}, {1, 7}, {7, 0}}
 	tl := tails[i%len(tails)]
 	for _, v := range tl[:len(tl)-1] {
 		hs = append(hs, histStep{Op: "switch", Var: v}, histStep{Op: "gen"})
@@ -153,12 +162,16 @@ func CheckC18(e *Env) int {
 	// fresh-checkout references
 	variants := c18Variants("hist")
 	ref := make([][]byte, len(variants))
-	for _, v := range []int{0, 1, 4, 5, 6} {
+	for _, v := range []int{0, 1, 4, 5, 6, 7} {
 		root := filepath.Join(e.Scratch, "c18ref", fmt.Sprint(v))
 		os.MkdirAll(root, 0o755)
 		prepareModule(e, root, []*Program{variants[v]})
 		res := e.Wire(root, nil, "gen", "./...")
 		b, err := os.ReadFile(filepath.Join(root, "hist", "app", "wire_gen.go"))
+		if c18NoOutput[v] && res.Exit == 0 && err != nil {
+			os.RemoveAll(root)
+			continue // ref[v] stays nil: a fresh checkout has no generated file
+		}
 		if res.Exit != 0 || err != nil {
 			rep.Incon = append(rep.Incon, "reference generation failed: "+res.Stderr)
 			return rep.Finish(t0)
@@ -180,6 +193,7 @@ func CheckC18(e *Env) int {
 		var file []byte // nil = absent
 		var log []string
 		violated := false
+		staleReported := false
 		fail := func(step int, clause, witness string) {
 			mu.Lock()
 			defer mu.Unlock()
@@ -254,7 +268,7 @@ func CheckC18(e *Env) int {
 				case "tail":
 					// the up-to-date content followed by extra bytes
 					base := ref[1]
-					if c18Accepted[cur] {
+					if c18Accepted[cur] && !c18NoOutput[cur] {
 						base = ref[cur]
 					}
 					b = append(append([]byte(nil), base...), []byte("\nfunc leftoverTail() {}\n")...)
@@ -264,7 +278,7 @@ func CheckC18(e *Env) int {
 				case "crlf", "crlf-stale", "bom":
 					// the up-to-date (or another variant's) content with CRLF line endings / a byte order mark
 					base := ref[1]
-					if c18Accepted[cur] && h.Arg != "crlf-stale" {
+					if c18Accepted[cur] && !c18NoOutput[cur] && h.Arg != "crlf-stale" {
 						base = ref[cur]
 					} else if cur == 1 {
 						base = ref[0]
@@ -276,7 +290,7 @@ func CheckC18(e *Env) int {
 					}
 				case "same-length", "whitespace", "comment-before-header", "future-mtime", "ancient-mtime":
 					base := ref[1]
-					if c18Accepted[cur] {
+					if c18Accepted[cur] && !c18NoOutput[cur] {
 						base = ref[cur]
 					}
 					b = append([]byte(nil), base...)
@@ -343,6 +357,16 @@ func CheckC18(e *Env) int {
 							fail(k, "gen failed on an accepted variant", res.Stderr)
 							return
 						}
+						if c18NoOutput[cur] && got != nil {
+							// reported once per history; the replay goes on with the file wire left behind
+							if !staleReported {
+								staleReported = true
+								fail(k, "stale output survives a successful gen of a package without injectors (a fresh checkout has no such file)", fmt.Sprintf("wire_gen.go still holds %d bytes", len(got)))
+								violated = false
+							}
+							file = got
+							break
+						}
 						if string(got) != string(ref[cur]) {
 							fail(k, "after a successful gen the file differs from the fresh-checkout output of the current sources", fmt.Sprintf("got %d bytes, want %d bytes\n--- got\n%s", len(got), len(ref[cur]), got))
 							return
@@ -359,6 +383,15 @@ func CheckC18(e *Env) int {
 						}
 					}
 				case "diff":
+					if c18NoOutput[cur] {
+						// nothing to generate: with no file there is no difference; whether a
+						// stale file that nothing replaces should be flagged is not claimed
+						if file == nil && res.Exit != 0 {
+							fail(k, fmt.Sprintf("diff exit status %d on a package without injectors and without output, want 0", res.Exit), res.Stdout+res.Stderr)
+							return
+						}
+						break
+					}
 					want := 2
 					if accepted {
 						want = 1
